@@ -63,6 +63,11 @@ TABLE = {
  "C18": [("Proofs/StructBound", n) for n in ["pop_bound_sound", "pop_bound_bounded", "core_bounded_crun", "view_bounded_state_after", "sma_pop", "cyber_pop"]] +
         [("Proofs/StructSched", n) for n in ["sched_pop_bound", "sched_pop_bounded"]],
 }
+EXTRA8 = {
+ "C09": [("Proofs/CompP", n) for n in ["standalone_fading", "wrap_linear", "fading_compose", "fading_compose_needs_ready", "view_fading_all_steps", "fading_chain2",
+                                       "fading_chain_list", "fading_chain_outputs", "chain_answers"]],
+ "C10": [("Proofs/CompP", n) for n in ["ema_core_linear", "chain_linear"]],
+}
 EXTRA7 = {
  "C16": [("Proofs/BridgeP", n) for n in ["sma_bridge", "cumulative_bridge", "ema_bridge", "wr_mean_bridge", "bridge_needs_finiteness", "sma_prim_drift", "sma_sum_prim_drift",
                                          "cumulative_prim_drift", "ema_prim_drift", "wr_mean_prim_drift"]] + [("Proofs/BridgeSim", "core_bridge")],
@@ -152,7 +157,7 @@ def header_of(path, name):
     return " ".join(m.group(1).split())
 
 def _merge_extra():
-    for ex in (EXTRA2, EXTRA3, EXTRA4, EXTRA5, EXTRA6, EXTRA7):
+    for ex in (EXTRA2, EXTRA3, EXTRA4, EXTRA5, EXTRA6, EXTRA7, EXTRA8):
         for k, v in ex.items():
             EXTRA[k] = EXTRA.get(k, []) + v
 
